@@ -176,6 +176,20 @@ impl Grapheme {
     }
 }
 
+fn is_single_escape_sequence(s: &str) -> bool {
+    let mut chars = s.chars();
+    if chars.next() != Some('\\') {
+        return false;
+    }
+    match chars.next() {
+        Some('u') => {
+            s.ends_with('}') && s.matches('\\').count() == 1 && s.matches('}').count() == 1
+        }
+        Some(_) => chars.next().is_none(),
+        None => false,
+    }
+}
+
 #[cfg(grex_verif)]
 impl Grapheme {
     pub(crate) fn verif_flags(&self) -> (bool, bool, bool) {
@@ -190,7 +204,7 @@ impl Grapheme {
 impl Display for Grapheme {
     fn fmt(&self, f: &mut Formatter<'_>) -> Result {
         let is_single_char = self.char_count(false) == 1
-            || (self.chars.len() == 1 && self.chars[0].matches('\\').count() == 1);
+            || (self.chars.len() == 1 && is_single_escape_sequence(&self.chars[0]));
         let is_range = self.min < self.max;
         let is_repetition = self.min > 1;
         let mut value = if self.repetitions.is_empty() {
